@@ -64,6 +64,8 @@ Proof. exact eval_ENUM_ambiguous. Qed.
 Theorem C08_eval_ENUM_nomatch : forall o vals v,
   spec_ENUM_nomatch vals (py_str (o_str o) v) -> eval o (CEnum vals) v = fail s_E005.
 Proof. exact eval_ENUM_nomatch. Qed.
+Theorem C08_eval_ENUM_exact_wins : forall o vals v, In (py_str (o_str o) v) vals -> eval o (CEnum vals) v = ok.
+Proof. exact eval_ENUM_exact_wins. Qed.
 Theorem C08_eval_TYPE_spec : forall o t v, valid (eval o (CType t) v) = true <-> spec_TYPE t v.
 Proof. exact eval_TYPE_spec. Qed.
 Theorem C08_eval_TYPE_unknown : forall o t v, assoc t cst_type_map = None -> eval o (CType t) v = fail s_E999.
@@ -91,19 +93,37 @@ Proof. exact eval_ISO_spec. Qed.
 Theorem C08_eval_LITERAL_spec : forall o v, valid (eval o CLiteral v) = true <-> exists c t, v = PZone c t.
 Proof. exact eval_LITERAL_spec. Qed.
 
-(* RANGE: proved for nan-free numeric readings; the unrestricted statement is false of the faithful model *)
+(* RANGE: unconditional -- no hypothesis on nan, on the size of an int, or on the bounds.  (Until repo commit 8e26d46 the
+   statement carried `range_nan_free` and had a `_refuted` companion: RANGE[1,10] accepted "nan"; repaired.) *)
+Definition C08_eval_RANGE_spec_full : Prop :=
+  forall o lo hi v, valid (eval o (CRange lo hi) v) = true <-> spec_RANGE (o_float o) lo hi v.
 Theorem C08_eval_RANGE_spec : forall o lo hi v,
-  range_nan_free o lo hi v = true ->
-  (valid (eval o (CRange lo hi) v) = true <-> spec_RANGE (o_float o) lo hi v).
+  valid (eval o (CRange lo hi) v) = true <-> spec_RANGE (o_float o) lo hi v.
 Proof. exact eval_RANGE_spec. Qed.
-Definition C08_eval_RANGE_spec_full : Prop := eval_RANGE_spec_full.
-Theorem C08_eval_RANGE_spec_refuted :
-  exists o lo hi v, valid (eval o (CRange lo hi) v) = true /\ ~ spec_RANGE (o_float o) lo hi v.
-Proof. exact eval_RANGE_spec_refuted. Qed.
+Theorem C08_eval_RANGE_spec_is_full : C08_eval_RANGE_spec_full.
+Proof. exact eval_RANGE_spec. Qed.
+Theorem C08_eval_RANGE_reject_code : forall o lo hi v,
+  valid (eval o (CRange lo hi) v) = false -> eval o (CRange lo hi) v = fail s_E011.
+Proof. exact eval_RANGE_reject_code. Qed.
+Theorem C08_eval_RANGE_rejects_nan : forall o lo hi v,
+  num_value (o_float o) v = Some FNan -> eval o (CRange lo hi) v = fail s_E011.
+Proof. exact eval_RANGE_rejects_nan. Qed.
+Theorem C08_eval_RANGE_int_exact : forall o lo hi z,
+  valid (eval o (CRange (FFin (inject_Z lo)) (FFin (inject_Z hi))) (PA (AInt z))) = ((lo <=? z)%Z && (z <=? hi)%Z).
+Proof. exact eval_RANGE_int_exact. Qed.
 Theorem C08_eval_RANGE_spec_nonvacuous :
-  range_nan_free (mkorc [] (Some (FFin (11 # 2))) false false (fun _ => false)) (FFin (inject_Z 1)) (FFin (inject_Z 10)) (PA (AStr [53;46;53])) = true
-  /\ valid (eval (mkorc [] (Some (FFin (11 # 2))) false false (fun _ => false)) (CRange (FFin (inject_Z 1)) (FFin (inject_Z 10))) (PA (AStr [53;46;53]))) = true.
-Proof. exact range_nan_free_ex. Qed.
+  valid (eval (orc_fl (Some (FFin (11 # 2)))) (CRange (FFin (inject_Z 1)) (FFin (inject_Z 10))) (PA (AStr [53;46;53]))) = true
+  /\ spec_RANGE (Some (FFin (11 # 2))) (FFin (inject_Z 1)) (FFin (inject_Z 10)) (PA (AStr [53;46;53]))
+  /\ valid (eval (orc_fl None) (CRange (FFin (inject_Z 0)) (FFin (inject_Z 9007199254740993))) (PA (AInt 9007199254740993))) = true.
+Proof. exact range_accepts_ex. Qed.
+(* regression: "nan" / float nan rejected by RANGE[1,10]; 2^53+1 rejected and 2^53 accepted by RANGE[0,2^53]; 10^400 -> E011 *)
+Theorem C08_eval_RANGE_regression :
+  eval (orc_fl (Some FNan)) (CRange (FFin (inject_Z 1)) (FFin (inject_Z 10))) (PA (AStr s_nan)) = fail s_E011
+  /\ eval (orc_fl None) (CRange (FFin (inject_Z 1)) (FFin (inject_Z 10))) (PA (AFloat FNan s_nan)) = fail s_E011
+  /\ eval (orc_fl None) (CRange (FFin (inject_Z 0)) (FFin (inject_Z 9007199254740992))) (PA (AInt 9007199254740993)) = fail s_E011
+  /\ eval (orc_fl None) (CRange (FFin (inject_Z 0)) (FFin (inject_Z 9007199254740992))) (PA (AInt 9007199254740992)) = ok
+  /\ eval (orc_fl None) (CRange (FFin (inject_Z 1)) (FFin (inject_Z 10))) (PA (AInt (10 ^ 400))) = fail s_E011.
+Proof. exact range_regression_ex. Qed.
 
 (* ---- document level ---- *)
 Theorem C08_missing_req_named : forall oof sec sc inst f ch,
